@@ -262,6 +262,28 @@ def b_int(ex, st, args, kwargs, node):
     raise Unsupported('int() of %r (line %d)' % (v.ty, node.lineno))
 
 
+@builtin('builtins:float')
+def b_float(ex, st, args, kwargs, node):
+    _one(ex, st, args, kwargs, 1, 'float')
+    v = args[0]
+    from .state import new_instance
+    if isinstance(v.ty, Ty.TNone):
+        return [], [ex.raised(st, 'builtins:TypeError')]
+    raises = []
+    if isinstance(v.ty, Ty.TOpt):
+        nn, isn = ex.fork(st, Not(is_none(v.term)), None)
+        if isn is not None:
+            raises.append(ex.raised(isn, 'builtins:TypeError'))
+        if nn is None:
+            return [], raises
+        st = nn
+    ok = fresh('float_ok', BoolS)
+    good, bad = ex.fork(st, ok, None)
+    if bad is not None:
+        raises.append(ex.raised(bad, 'builtins:ValueError'))
+    return ([(good, new_instance(good, 'builtins:float'))] if good is not None else []), raises
+
+
 @builtin('builtins:list')
 def b_list(ex, st, args, kwargs, node):
     if not args:
@@ -395,7 +417,17 @@ def m_format(ex, st, recv, args, kwargs, node):
 @method('list', 'append')
 def m_append(ex, st, recv, args, kwargs, node):
     a = va(recv.term)
-    st.L = z3.Store(st.L, a, z3.Concat(st.L[a], z3.Unit(args[0].term)))
+    old = st.L[a]
+    new = z3.Concat(old, z3.Unit(args[0].term))
+    st.L = z3.Store(st.L, a, new)
+    if SP.BOUND[0] is None:
+        # consequences of the sequence theory, stated explicitly to help quantifier instantiation
+        k = fresh('ak', IntS)
+        oc, nc = fresh('app_old', SeqVal), fresh('app_new', SeqVal)
+        st.assume(And(oc == old, nc == new))
+        st.assume(z3.ForAll([k], Implies(And(0 <= k, k < z3.Length(oc)), nc[k] == oc[k]), patterns=[nc[k]]))
+        st.assume(nc[z3.Length(oc)] == args[0].term)
+        st.assume(z3.Length(nc) == z3.Length(oc) + 1)
     return [(st, const_sv(None))], []
 
 
